@@ -8,9 +8,16 @@ from concurrent.futures import ThreadPoolExecutor
 
 VERIF = os.path.dirname(os.path.dirname(os.path.abspath(__file__)))
 SPEC = os.path.join(VERIF, "spec")
-HARNESS_DIR = os.path.join(VERIF, "harness")
-HARNESS_BIN = os.path.join(HARNESS_DIR, "target", "debug", "aidl-verif-harness")
 WORK = os.path.join(VERIF, "work")
+# The registered checks always build against /repo. For experiments (seeded changes evaluated in scratch
+# worktrees, in parallel, without touching /repo) VERIF_REPO may name another checkout: a private copy of the
+# harness project (same sources, own target directory) is then built against it.
+REPO = os.environ.get("VERIF_REPO", "/repo")
+if REPO == "/repo":
+    HARNESS_DIR = os.path.join(VERIF, "harness")
+else:
+    HARNESS_DIR = os.path.join(WORK, "harness-" + hashlib.sha1(REPO.encode()).hexdigest()[:10])
+HARNESS_BIN = os.path.join(HARNESS_DIR, "target", "debug", "aidl-verif-harness")
 EVID = os.path.join(VERIF, "evidence")
 REPLAYS = os.path.join(VERIF, "replays")
 TLA_CP = "/opt/veriftools/tla/tla2tools.jar:/opt/veriftools/tla/CommunityModules-deps.jar"
@@ -39,9 +46,25 @@ def cid_of(text):
 # ------------------------------------------------------------------------------------
 # build
 # ------------------------------------------------------------------------------------
+def _private_harness():
+    base = os.path.join(VERIF, "harness")
+    os.makedirs(os.path.join(HARNESS_DIR, ".cargo"), exist_ok=True)
+    with open(os.path.join(base, "Cargo.toml")) as f:
+        toml = f.read().replace('path = "/repo"', f'path = "{REPO}"')
+    with open(os.path.join(HARNESS_DIR, "Cargo.toml"), "w") as f:
+        f.write(toml)
+    shutil.copy(os.path.join(base, "Cargo.lock"), os.path.join(HARNESS_DIR, "Cargo.lock"))
+    shutil.copy(os.path.join(base, ".cargo", "config.toml"), os.path.join(HARNESS_DIR, ".cargo", "config.toml"))
+    link = os.path.join(HARNESS_DIR, "src")
+    if not os.path.exists(link):
+        os.symlink(os.path.join(base, "src"), link)
+
+
 def build_harness():
     """Always rebuilds from /repo's current working tree (cargo sees the path dependency)."""
     t0 = time.time()
+    if REPO != "/repo":
+        _private_harness()
     env = dict(os.environ, CARGO_NET_OFFLINE="true")
     r = subprocess.run(["cargo", "build", "--offline", "-q"], cwd=HARNESS_DIR, env=env,
                        stdout=subprocess.PIPE, stderr=subprocess.STDOUT, text=True)
